@@ -214,6 +214,12 @@ func (g *G) specSwitchFrame() ([]byte, util.Message, string, string) {
 		b := w.finish()
 		h.Header.Length = uint16(len(b))
 		g.swRecipe = "(SHello " + listT(ets) + ")"
+		if g.r.Intn(4) == 0 { // the peer's highest version in the header is not 1.3 (negotiation goes by the bitmap)
+			v := []uint8{1, 2, 3, 5, 6}[g.r.Intn(5)]
+			b[0], h.Header.Version = v, v
+			g.swRecipe = ""
+			return b, h, "hello/other-version", ""
+		}
 		return b, h, "hello", ""
 	case 1: // error
 		e := &of.ErrorMsg{Header: hdr(1), Type: uint16(g.r.Intn(14)), Code: uint16(g.r.Bits(16))}
